@@ -86,6 +86,15 @@ func c20SetMag(name string, m int) {
 	}
 }
 
+// scales a freshly housed window in place (extreme-magnitude flavour)
+func c20MagApply(w []float64, isWeights bool) {
+	if c20Mag != 0 && (isWeights && c20MagTarget != 2 || !isWeights && c20MagTarget != 1) {
+		for i := range w {
+			w[i] *= c20Mag
+		}
+	}
+}
+
 // the factor the weights carry (for the weights written after housing: exact zeros stay zeros)
 func c20WUnit() float64 {
 	if c20Mag != 0 && c20MagTarget != 2 {
@@ -220,11 +229,7 @@ func houseF(rng *rand.Rand, xs []float64) []float64 {
 	if n > 0 {
 		c20SawFloat = true
 	}
-	if c20Mag != 0 && (c20InWeights && c20MagTarget != 2 || !c20InWeights && c20MagTarget != 1) {
-		for i := range w {
-			w[i] *= c20Mag
-		}
-	}
+	c20MagApply(w, c20InWeights)
 	if n+spare > 0 {
 		c20BackF[&back[c20Guard]] = back
 	}
@@ -1826,6 +1831,9 @@ func c20Gen(tier string, rng *rand.Rand, emit0 func(interface{})) {
 		if r < 6 {
 			for _, c := range c20Canaries {
 				cc := c20Case{Call: c.name, Seed: rng.Int63(), Size: 3 + rng.Intn(30), Cap: (r + 2) % 3}
+				if c.name == "canary:impure/extreme" { // flagged ONLY when the extreme-magnitude flavour really scales the arrays
+					cc.Mag = 1 + 6*(r%2) + 2*rng.Intn(3) + (r/2+magFlip)%2
+				}
 				if c.name == "canary:nondet/process" && os.Getenv("C20_NOFRESH") == "1" {
 					continue // only the fresh-process reference can see it, and the -race twin makes none
 				}
